@@ -75,3 +75,79 @@ contract('Environment.schedule_event', props=['C01'],
              'clock_untouched': 'self._now == old(self._now)',
          },
          modifies=['self._events[]'])
+
+# --------------------------------------------------------------------------- Event.execute
+rely('Event', protect=['self.cancelled'],
+     note='the action of an event is arbitrary user/library code; nothing about the event itself is relied on '
+          'except that its own action does not cancel it while it runs')
+
+contract('Event.execute', props=['C01', 'C07'], args={}, invariants=False,
+         requires={'has_action': 'self.action is not None'},
+         ensures={
+             'action_runs_iff_live':
+                 'trace_len() == old(trace_len()) + ite(old(self.cancelled or self.executed), 0, 1)',
+             'runs_own_action':
+                 'implies(not old(self.cancelled or self.executed), trace_kind(old(trace_len())) == 0 and '
+                 'trace_fn(old(trace_len())) == self.action)',
+             'marked_executed': 'implies(not old(self.cancelled), self.executed)',
+             'cancelled_never_runs': 'implies(old(self.cancelled), self.status == "cancelled" and '
+                                     'self.executed == old(self.executed))',
+         })
+
+# --------------------------------------------------------------------------- Environment: the rely
+# What an event action / user callback may do to the environment while it runs (A4): anything the
+# public API allows (schedule, pause, unpause, cancel, add_datapoint), hence the class invariants hold
+# again afterwards; it does not step/run re-entrantly (clock, terminated flag and trace bookkeeping
+# untouched), does not pause or cancel the events of asset id -1 (the terminator and the resource
+# manager's checks) and cannot create events whose action is the private Environment._terminate.
+ENV_INVS = {n: t for n, t, s in SPECS.invariants['Environment']}
+rely('Environment',
+     protect=['self._now', 'self._terminated', 'self._trace', 'self._event_index', 'self._event_trace',
+              'self._event_trace[]', 'self.name', 'self.resource_manager'],
+     before=ENV_INVS,
+     after=dict(ENV_INVS,
+                system_events_untouched=
+                'all(implies(old(self._events[i]).asset_id == -1, '
+                '            any(e is old(self._events[i]) for e in self._events) and '
+                '            old(self._events[i]).time == old(self._events[i].time) and '
+                '            not old(self._events[i]).cancelled and not old(self._events[i]).executed) '
+                '    for i in range(old(len(self._events))))',
+                members_known=
+                'all(any(e is x for x in old(seq(self._events))) or any(e is x for x in old(seq(self._paused_events))) '
+                '    or fresh(e) for e in self._events) and '
+                'all(any(e is x for x in old(seq(self._events))) or any(e is x for x in old(seq(self._paused_events))) '
+                '    or fresh(e) for e in self._paused_events)',
+                no_new_terminators=
+                'all(implies(e.action == method(self, "_terminate"), any(e is x for x in old(seq(self._events)))) '
+                '    for e in self._events)'),
+     note='A4: actions use only the public API of the environment; no nested run/step; asset id -1 is never '
+          'paused or cancelled; Environment._terminate is private')
+dispatch('Environment', '_terminate')
+
+contract('Environment._terminate', props=['C01'], args={}, ensures={'sets_flag': 'self._terminated'},
+         modifies=['self._terminated'])
+contract('Environment.is_simulation_in_progress', props=['C01'], args={}, result='bool',
+         ensures={'reports_flag': 'result == (not self._terminated)'}, modifies=[])
+
+contract('Environment.step', props=['C01', 'C15'], args={},
+         requires={'queue_not_empty': 'len(self._events) > 0',
+                   'actions_callable': 'all(e.action is not None for e in self._events)'},
+         may_raise=['Exception'],
+         ensures={
+             'takes_minimum': 'old(all(not lt(e, self._events[0]) for e in self._events))',
+             'clock_is_event_time': 'self._now == old(self._events[0].time)',
+             'clock_monotone': 'self._now >= old(self._now)',
+             'head_marked': 'implies(not old(self._events[0].cancelled), old(self._events[0]).executed)',
+             'C01,C07/cancelled_head_does_not_run':
+                 'implies(old(self._events[0].cancelled), trace_len() == old(trace_len()))',
+             'head_left_queue': 'all(e is not old(self._events[0]) for e in self._events)',
+             'C15/trace_entry':
+                 'implies(old(self._trace), self._event_index == old(self._event_index) + 1 and '
+                 '        old(self._event_index) in self._event_trace)',
+             'C15/trace_off_untouched':
+                 'implies(not old(self._trace), self._event_index == old(self._event_index) and '
+                 '        dmap(self._event_trace) == old(dmap(self._event_trace)))',
+         })
+literal('Environment._trace_event',
+        "{'time': self.now, 'asset_id': event.asset_id, 'action': event.action.__name__, 'message': event.message, "
+        "'event_type': event.event_type, 'status': event.status}", 'dict[any,any]')
